@@ -184,8 +184,8 @@ var converters = struct {
 				return rueidis.BinaryString(value.Bytes()), true
 			},
 			StringToValue: func(value string) (reflect.Value, error) {
-				buf := unsafe.Slice(unsafe.StringData(value), len(value))
-				return reflect.ValueOf(buf), nil
+				// copy: the string may be the client-side cached reply, which later FetchCache calls share
+				return reflect.ValueOf([]byte(value)), nil
 			},
 		},
 		reflect.Float32: {
